@@ -3,25 +3,33 @@
 Three kinds of cases, all run in the case farm:
 
 flow   one flow configuration (nessai.flowmodel.FlowModel) taken through the weight states
-       fresh -> perturbed (every parameter + N(0, 0.3^2)) -> trained (5 epochs) -> reset_model(weights=True)
-       -> reset_model(permutations=True) -> reset_model(weights=True, permutations=True).
-       In every state: density attached to generated samples == density evaluated at them, forward o inverse == id,
+       fresh -> perturbed (every parameter + N(0, 0.3^2), weight matrices scaled by fan-in) -> trained (5 epochs)
+       -> reset_model(weights=True) -> reset_model(weights=False, permutations=True) -> reset_model(weights=True, permutations=True).
+       In every state: density attached to generated samples == density evaluated at them, inverse o forward == id,
        numpy-level FlowModel methods == an independent composition of the glasflow transforms + closed-form base density
-       (vlib/oracles/flow_direct.py), also with an alternative latent distribution; in 2-d the density integrates to one.
-fp     FlowProposal: backward_pass(z) -> (x, log_q); forward_pass(x) -> (z', log_q'); z' == z, log_q' == log_q
-       (alt - base correction for the n-ball latent prior).
+       (vlib/oracles/flow_direct.py), also with an alternative latent distribution; in 2-d (float64) the integral of the density
+       over the central box of one sample set equals the fraction of an independent sample set inside that box.
+fp     FlowProposal / AugmentedFlowProposal: backward_pass(z) -> (x, log_q); forward_pass(x) -> (z', log_q'); z' == z,
+       log_q' == log_q (alt - base correction for the n-ball latent prior); physical density == prime-space density x Jacobian.
 ins    ImportanceFlowProposal after a tiny real importance-nested-sampler run: draw() table ==
-       compute_meta_proposal_samples() == incremental update_log_q == independent per-flow evaluation; rescale /
-       inverse_rescale Jacobians paired.
+       compute_meta_proposal_samples() == incremental update_log_q == the sampler's stored table == independent per-flow
+       evaluation; rescale / inverse_rescale Jacobians paired.
 
-Tolerances (DESIGN C08): float64 is the deciding dtype, 1e-8 * (1 + |v|) in every weight state; float32 covers the casts,
-2e-4 * (1 + |v|), and only in states whose batch-norm statistics are not the initial zeros (an untrained flow with
-batch-norm layers scales by 1/sqrt(1e-5) per layer: conditioning 1e5 for two layers, which is rounding, not logic).
-For the same reason states with zero running variance and more than two batch-norm layers are excluded (float64 too).
+Tolerances (DESIGN C08): float64 is the deciding dtype, 1e-8 * (1 + |v|) in every weight state.  float32 covers the casts with
+2e-4 * (1 + |v|); a float32 disagreement is re-examined with the same weights cast to float64 and only counts if it persists
+there (nessai has no dtype-specific code path; what disappears in float64 is rounding on an ill-conditioned flow).  States whose
+batch-norm layers still have the initial zero running variance scale by 1/sqrt(1e-5) per layer (conditioning 1e5 for two layers):
+they are skipped in float32, and in float64 when there are more than two such layers.
+
+Not compared (counted in the evidence): samples further than 1000 median-absolute-deviations from the bulk; latent points of a
+uniform base within a band of the cube faces; points in the clamp band of glasflow's Logit pre-transform; generated points within
+1e-6 (relative) of a prior bound under a logit reparameterisation (sigmoid saturation) and within 1e-7 of a face of the unit
+hypercube for the independent importance-proposal table (nessai clamps the logit there by design).
 """
 import math
 import os
 import shutil
+import time
 import traceback
 
 import numpy as np
@@ -156,9 +164,10 @@ def gen_fp_case(seed, n, quick):
     reps = list(FP_REPARAMS)
     lps = ["truncated_gaussian", "uniform_nball", "gaussian"]
     ftypes = ["realnvp", "maf", "nsf"]
-    return dict(model=["G2u", "G3u", "G4u"][int(rng.integers(3))], reparam=reps[n % len(reps)], latent_prior=lps[(n // len(reps) + n) % 3],
-                ftype=ftypes[(n // 2 + n // 6) % 3], dtype=["float64", "float32"][(n + n // 6) % 2], bn=bool(rng.random() < 0.4),
-                lt=[None, "permutation", "lu"][int(rng.integers(3))], reverse=bool(rng.random() < 0.2))
+    augmented = n % 5 == 4
+    return dict(model=["G2u", "G3u", "G4u"][int(rng.integers(3))], reparam=reps[n % len(reps)], latent_prior=lps[(n // 5) % 3 if augmented else (n // len(reps) + n) % 3],
+                ftype="realnvp" if augmented else ftypes[(n // 2 + n // 6) % 3], dtype=["float64", "float32"][(n + n // 6) % 2], bn=bool(rng.random() < 0.4),
+                lt=None if augmented else [None, "permutation", "lu"][int(rng.integers(3))], reverse=bool(rng.random() < 0.2), augmented=augmented)
 
 
 def gen_ins_case(seed, n, quick):
@@ -514,8 +523,15 @@ def fp_case(case, outdir):
     extra = {}
     if c["latent_prior"] != "truncated_gaussian":  # constant-volume mode is only defined for the truncated Gaussian
         extra["constant_volume_mode"] = False
-    fp = FlowProposal(model, output=outdir, poolsize=100, plot=False, flow_config=fcfg, training_config=dict(max_epochs=15, patience=8),
-                      latent_prior=c["latent_prior"], reverse_reparameterisations=c["reverse"], **extra, **kw)
+    cls = FlowProposal
+    if c.get("augmented"):
+        from nessai.proposal.augmented import AugmentedFlowProposal as cls
+
+        extra["augment_dims"] = 2
+        # the augmented proposal installs its own coupling mask, which only RealNVP accepts
+        fcfg = dict(n_blocks=2, n_neurons=8, n_layers=1, ftype="realnvp", batch_norm_between_layers=c["bn"], linear_transform=None)
+    fp = cls(model, output=outdir, poolsize=100, plot=False, flow_config=fcfg, training_config=dict(max_epochs=15, patience=8),
+             latent_prior=c["latent_prior"], reverse_reparameterisations=c["reverse"], **extra, **kw)
     fp.initialise()
     pr = model.sample_prior(3000, rng)
     pr["logP"] = model.raw_log_prior(pr)
@@ -531,6 +547,8 @@ def fp_case(case, outdir):
         z = draw_gaussian(fp.dims, N=n)
     else:
         z = draw_truncated_gaussian(fp.dims, fp.r, N=n, fuzz=fp.fuzz)
+    if c.get("augmented"):
+        return augmented_case(case, fp, model, z, rec)
     x, log_q, zk = fp.backward_pass(z, rescale=True, return_z=True)
     res = dict(kind="fp", n=case["n"], cfg=c, kept=int(len(x)), nontrivial=False)
     if c["reparam"] in ("logit", "mixed") and len(x):
@@ -565,6 +583,47 @@ def fp_case(case, outdir):
                         factor=1e-8 / rec.tol * 100)
             rec.compare("FlowProposal physical density = prime density x Jacobian", "C08:flowproposal:density-differs-from-flow-density-times-jacobian",
                         log_q, log_qp + lj, ctx, "cmp_flowproposal_density")
+        res["mean_abs_log_q"] = float(np.mean(np.abs(log_q)))
+    rec.fold()
+    res.update(problems=rec.problems, metrics=rec.metrics, counts=rec.counts, worst=rec.worst)
+    return res
+
+
+def augmented_case(case, fp, model, z, rec):
+    """AugmentedFlowProposal (its own copy of backward_pass): the auxiliary coordinates it generated are carried through the deterministic
+    base rescaling, so that the forward density is evaluated at exactly the point that was generated."""
+    import torch
+
+    c = case["cfg"]
+    x, log_q = fp.backward_pass(z, rescale=True)
+    res = dict(kind="fp", n=case["n"], cfg=c, kept=int(len(x)), nontrivial=False)
+    if c["reparam"] in ("logit", "mixed") and len(x):
+        names = model.names if c["reparam"] == "logit" else model.names[1:2]
+        u = np.column_stack([(x[nm] - model.bounds[nm][0]) / (model.bounds[nm][1] - model.bounds[nm][0]) for nm in names])
+        ok = np.all((u > 1e-6) & (u < 1 - 1e-6), axis=1) & np.isfinite(log_q)
+        rec.bump("fp_points_in_logit_saturation_band", int((~ok).sum()))
+        x, log_q = x[ok], log_q[ok]
+    ctx = f"augmented, {len(x)} of {len(z)} latent points inside the prior"
+    if len(x):
+        xp, lj = fp._base_rescale(x.copy(), compute_radius=False)
+        for an in fp.augment_parameters:
+            xp[an] = x[an]
+        z2, log_q2 = fp.forward_pass(xp, rescale=False)
+        log_q2 = log_q2 + lj
+        corr = 0.0
+        if fp.alt_dist is not None:
+            zt = torch.from_numpy(z2).type(torch.get_default_dtype())
+            with torch.no_grad():
+                corr = (fp.alt_dist.log_prob(zt) - fp.flow.model.base_distribution_log_prob(zt)).numpy().astype(np.float64)
+            rec.bump("fp_alt_dist_corrections")
+        res["nontrivial"] = rec.compare("AugmentedFlowProposal backward_pass density vs forward density", "C08:augmentedflowproposal:backward-density-differs-from-forward-density",
+                                        log_q, log_q2 + corr, ctx, "cmp_augmented_density")
+        if len(x) == len(z):
+            rec.compare("AugmentedFlowProposal forward(backward_pass(z)) vs z", "C08:augmentedflowproposal:latent-round-trip", z2, z, ctx, "cmp_flowproposal_latent")
+        xpb, log_qp = fp.backward_pass(z2, rescale=False)
+        if len(xpb) == len(z2):
+            rec.compare("AugmentedFlowProposal physical density = prime density x Jacobian", "C08:augmentedflowproposal:density-differs-from-flow-density-times-jacobian",
+                        log_q, log_qp + lj, ctx, "cmp_augmented_density")
         res["mean_abs_log_q"] = float(np.mean(np.abs(log_q)))
     rec.fold()
     res.update(problems=rec.problems, metrics=rec.metrics, counts=rec.counts, worst=rec.worst)
@@ -669,9 +728,12 @@ def worker(case):
     outdir = case["outdir"]
     shutil.rmtree(outdir, ignore_errors=True)
     os.makedirs(outdir, exist_ok=True)
+    t0 = time.time()
     try:
         fn = dict(flow=flow_case, fp=fp_case, ins=ins_case)[case["kind"]]
-        return fn(case, outdir)
+        res = fn(case, outdir)
+        res["wall"] = round(time.time() - t0, 2)
+        return res
     except Exception as e:
         tb = traceback.format_exc()
         fnn = [ln.split(", in ")[-1].strip() for ln in tb.splitlines() if ln.strip().startswith("File ") and "/nessai/" in ln][-1:]
@@ -685,7 +747,7 @@ def worker(case):
 # ------------------------------------------------------------------------------------------------ main
 def build_cases(chk):
     quick = chk.quick
-    nflow, nfp, nins = (80, 18, 6) if quick else (900, 120, 36)
+    nflow, nfp, nins = (80, 24, 6) if quick else (900, 120, 36)
     cases = []
     for n in range(nins):  # longest first
         cases.append(dict(kind="ins", n=n, seed=chk.seed, cfg=gen_ins_case(chk.seed, n, quick)))
@@ -693,6 +755,8 @@ def build_cases(chk):
         cases.append(dict(kind="fp", n=n, seed=chk.seed, cfg=gen_fp_case(chk.seed, n, quick)))
     for n in range(nflow):
         cases.append(dict(kind="flow", n=n, seed=chk.seed, cfg=gen_flow_cfg(chk.seed, n, quick)))
+    # longest first: importance runs, then the 2-d float64 flows (six quadratures each)
+    cases.sort(key=lambda c: 0 if c["kind"] == "ins" else 1 if (c["kind"] == "flow" and c["cfg"]["d"] == 2 and c["cfg"]["dtype"] == "float64") else 2)
     for i, c in enumerate(cases):
         c["outdir"] = os.path.join(chk.scratch, f"case-{c['kind']}-{c['n']}")
     return cases
@@ -718,6 +782,8 @@ def main():
         for key, what in r.get("problems", []):
             print(f"[C08] replay witness key={key}: {what}")
         print({k: r.get(k) for k in ("kind", "n", "cfg", "states", "metrics", "worst")})
+        if r.get("problems"):
+            print(f"VIOLATION property=C08 replay={chk.args.replay}")
         raise SystemExit(1 if r.get("problems") else 0)
 
     cases = build_cases(chk)
@@ -727,6 +793,7 @@ def main():
     worst = {"float64": 0.0, "float32": 0.0}
     not_reached, excluded = [], 0
     rounding_worst, norm_worst = 0.0, 0.0
+    witnesses = {}
     svd_cells, svd_seen = 0, 0
     for c, r in zip(cases, results):
         name = f"{c['kind']}-{c['n']}"
@@ -749,23 +816,27 @@ def main():
         chk.count(f"cases_{c['kind']}")
         replay = {k: c[k] for k in ("kind", "n", "seed", "cfg")}
         for key, what in r["problems"]:
-            chk.violation(key, f"{name} {compact(r['cfg'])}: {what}", replay)
+            witnesses[key] = witnesses.get(key, 0) + 1
+            if witnesses[key] <= 3:  # three replay files per mechanism are enough; the rest is counted
+                chk.violation(key, f"{name} {compact(r['cfg'])}: {what}", replay)
     chk.extra["worst_margin"] = {k: f"largest decided disagreement / tolerance = {v:.3g} (tolerance {TOL[k]:g} x (1+|v|))" for k, v in worst.items()}
     chk.extra["worst_margin"]["float32 resolved as rounding by the float64 re-examination"] = f"largest disagreement / float32 tolerance = {rounding_worst:.3g}"
     chk.extra["worst_margin"]["2-d normalisation"] = f"largest |integral - empirical mass| / allowance = {norm_worst:.3g}"
     chk.extra["not_reached"] = not_reached
+    chk.extra["witnesses_per_mechanism"] = witnesses
     chk.extra["excluded_by_precondition"] = (f"{excluded} weight states with zero batch-norm running variance (float32, or more than two batch-norm layers): "
                                              "conditioning 316^layers makes the comparison a rounding test")
-    chk.finish("flow cases: every (ftype in realnvp/nsf/maf, linear transform None/permutation/lu/svd, d in 2/3/5, dtype) cell in seeded order, remaining options "
-               "(batch norm between/within, actnorm, masks 1-d/2-d, base distribution default/mvn var!=1/uniform/lars, net resnet/mlp, volume preserving, activation, "
-               "pre-transform, spline bins/tails, MAF masks/permutations, blocks/neurons/layers, deprecated kwargs form) drawn at random; each taken through fresh, "
-               "perturbed (+N(0,0.3^2)), trained 5 epochs, reset weights, reset permutations, full reset; 1500 generated points per state compared between generation, "
-               "evaluation, FlowModel wrappers (with and without alt_dist) and an independent composition of the transforms with closed-form base density; 2-d float64 "
-               "cases integrated on a 600^2 grid. FlowProposal cases: 6 deterministic reparameterisations x 3 latent priors x 3 flow types x 2 dtypes, 2000 latent points "
-               "backward then forward. Importance cases: tiny real INS run (3 iterations), draw / recompute / update_log_q / independent tables. A case is non-trivial when "
-               "its deciding comparison ran on finite values; distinct by configuration cell.",
+    chk.finish("flow cases: every (ftype in realnvp/nsf/maf, linear transform None/permutation/lu/svd, d in 2/3/5 [thorough also 4/8], dtype) cell in seeded order, "
+               "remaining options (batch norm between/within, actnorm, masks 1-d/2-d, base distribution default/mvn var!=1/uniform/lars, net resnet/mlp, volume preserving, "
+               "activation, pre-transform batch_norm/logit, spline bins/tails/unconditional transform, MAF masks/permutations/residual blocks, blocks/neurons/layers, deprecated "
+               "kwargs form) drawn at random; each taken through fresh, perturbed (+N(0,0.3^2)), trained 5 epochs, reset weights, reset permutations, full reset; 1500 generated "
+               "points per state compared between generation, evaluation, FlowModel wrappers (with and without alt_dist) and an independent composition of the transforms with "
+               "closed-form base density; 2-d float64 cases integrated on 600^2 (refined 1800^2) quantile-spaced cells over the central box against the empirical mass of an "
+               "independent sample. FlowProposal cases: 6 deterministic reparameterisations x 3 latent priors x 3 flow types x 2 dtypes (every fifth AugmentedFlowProposal), "
+               "2000 latent points backward then forward. Importance cases: tiny real INS run (3 iterations), draw / recompute / update_log_q / stored / independent tables. "
+               "A case is non-trivial when its deciding comparison ran on finite values; distinct by configuration cell.",
                require_observed=["cmp_generated_vs_evaluated", "cmp_round_trip", "cmp_direct", "cmp_alt_dist", "cmp_normalisation_2d", "cmp_flowproposal_density",
-                                 "cmp_ins_table", "cmp_ins_update", "cmp_ins_direct"])
+                                 "cmp_augmented_density", "cmp_ins_table", "cmp_ins_update", "cmp_ins_direct"])
 
 
 def compact(cfg):
